@@ -249,6 +249,10 @@ var c08Warm bool
 // c08BlockPlugin: the next checks parse with a lexer plugin that consumes block comments
 var c08BlockPlugin bool
 
+// c08DupStmt: the first statement node of the parsed program is listed a second time at the end (a tree edited by a
+// plugin: one node in two places); each occurrence in the generated code is linked to the one place in the source
+var c08DupStmt bool
+
 var c08BlockAtLineEnd = regexp.MustCompile(`\*/[ \t]*(\r|\n|//|$)`)
 
 // c08BlankBlocks replaces every `/* … */` by blanks, keeping line breaks: offsets, lines and columns stay
@@ -305,6 +309,10 @@ func c08Check(c *oracleCtx, src, cfg string, steer bool) {
 	if blockPlugin {
 		input["lexer-plugin"] = "block-comments"
 	}
+	dupStmt := c08DupStmt
+	if dupStmt {
+		input["tree-edit"] = "first statement node listed again at the end"
+	}
 	guard(c, "", input, func() {
 		prog, errs := oaParse(src)
 		if blockPlugin {
@@ -323,6 +331,9 @@ func c08Check(c *oracleCtx, src, cfg string, steer bool) {
 				fmt.Printf("REJECTED %q: %s\n", src, oaErrText(errs))
 			}
 			return
+		}
+		if dupStmt && len(prog.Statements) > 0 {
+			prog.Statements = append(prog.Statements, prog.Statements[0])
 		}
 		comp := compilerOf(cfg)
 		if c08Warm {
@@ -519,6 +530,7 @@ func c08Check(c *oracleCtx, src, cfg string, steer bool) {
 // ---------- generators ----------
 
 var c08Snippets = []string{
+	"x = 1 .toString();", "y = 42 .toFixed(n) + 7 .valueOf();", "z = [3 .k, 10 .m(4 .n)];", "w = 0x1f.toString(2) + 1.5.toFixed(1);",
 	"n = i + ++j - --k;", "a = b - -c;", "a = - -b;", "d = e - --f;", "g = -h - -1;", "m = !-n;", "r = 1 - -2 - - -3;",
 	"s = `line1\n  line2\n\nline4` + t;", "f(`a\nb\nc`, d);", "let m = `x\n\n\ny`; g(m);", "w = `one\ntwo`;", "h(`\n\n\n`)(z);", "e = `t1 ${a}\n\n  t2` + `u`;",
 	"q = \"a\\\nb\" + r;", "q2 = 'c\\\n\\\nd'; q3 = q2;",
@@ -581,6 +593,10 @@ func oracleC08(c *oracleCtx) {
 						c08BlockPlugin = true
 						defer func() { c08BlockPlugin = false }()
 					}
+					if oaStr(m, "tree-edit") != "" {
+						c08DupStmt = true
+						defer func() { c08DupStmt = false }()
+					}
 					c08Check(c, src, cfg, false)
 				}()
 			}
@@ -606,6 +622,11 @@ func oracleC08(c *oracleCtx) {
 		c08Warm = c.r.Intn(3) == 0
 		defer func() { c08Warm = false }()
 		c08Check(c, src, "cm", true)
+		if c.r.Intn(4) == 0 {
+			c08DupStmt = true
+			c08Check(c, src, "cm", true)
+			c08DupStmt = false
+		}
 		if c.r.Intn(4) == 0 && !strings.ContainsAny(src, "`\"'/") {
 			// the same program with block comments that a lexer plugin consumes
 			// (the plugin hands over right behind the comment and its blanks: a comment at the end of a line would leave the
